@@ -5,7 +5,8 @@
 (* (id, zones, wire forms); then, in the order of a driver-side sequence   *)
 (* number: `signal` (with the id of what is on disk, or 0 if a file is     *)
 (* unreadable / invalid), `reload_done` (success or failure, from the      *)
-(* server's log), `send` and `recv` of queries.  Because the order across  *)
+(* server's log), `rest` (nothing signalled or reported for a while: the   *)
+(* last signalled disk must be in force), `send` and `recv` of queries.  Because the order across  *)
 (* processes is only known up to these events, the specification tracks    *)
 (* the SET of configurations that may be in force: a successful reload may *)
 (* swap at any moment between its signal and its completion.  A reply must *)
@@ -46,14 +47,31 @@ Widen(p) == [q \in DOMAIN pending |-> pending[q] \cup p]
 Step(e) ==
     CASE e.ev = "signal" ->
             \* from now until the reload is reported done, the new configuration may be swapped in at any moment
-            /\ inflight' = e.disk
+            /\ inflight' = Append(inflight, e.disk)
             /\ possible' = IF e.disk = 0 THEN possible ELSE possible \cup {e.disk}
             /\ pending' = Widen(possible')
       [] e.ev = "reload_done" ->
-            \* all or nothing: success exactly when every file was readable and valid
-            /\ e.ok = (inflight # 0)
-            /\ possible' = IF e.ok THEN {inflight} ELSE possible
-            /\ inflight' = 0
+            /\ Len(inflight) >= 1
+            /\ IF Len(inflight) = 1
+               THEN \* all or nothing: success exactly when every file was readable and valid
+                    /\ e.ok = (inflight[1] # 0)
+                    /\ possible' = IF e.ok THEN {inflight[1]} ELSE possible
+                    /\ inflight' = <<>>
+               ELSE \* further signals arrived while this reload was loading: it read the disk at some moment since the
+                    \* first of them, and ONE notification is still outstanding (the signal stream coalesces): the task
+                    \* reloads once more, reading the disk as the last signal found it
+                    /\ IF e.ok THEN /\ Range(inflight) \ {0} # {}
+                                    /\ possible' = Range(inflight) \ {0}
+                               ELSE /\ 0 \in Range(inflight)
+                                    /\ possible' = possible
+                    /\ inflight' = <<inflight[Len(inflight)]>>
+            /\ pending' = Widen(possible')
+      [] e.ev = "rest" ->
+            \* the driver saw no signal and no report for a while (longer than the slowest reload of the schedule) and
+            \* the disk has not changed since the last signal: nothing signalled may be lost, so the configuration in
+            \* force is the one on disk if that is good (Reload!Inv_C19_Fresh), and what was in force before otherwise
+            /\ possible' = IF e.disk # 0 THEN {e.disk} ELSE possible
+            /\ inflight' = <<>>
             /\ pending' = pending
       [] e.ev = "send" ->
             /\ pending' = [q \in DOMAIN pending \cup {e.qid} |-> IF q = e.qid THEN possible ELSE pending[q]]
@@ -65,7 +83,7 @@ Step(e) ==
             /\ pending' = [q \in DOMAIN pending \ {e.qid} |-> pending[q]]
             /\ UNCHANGED <<possible, inflight>>
 
-Init == l = 1 /\ possible = {Rec[1].initial} /\ inflight = 0 /\ pending = [q \in {} |-> {}]
+Init == l = 1 /\ possible = {Rec[1].initial} /\ inflight = <<>> /\ pending = [q \in {} |-> {}]
 Next == l < Len(Rec) /\ Step(Rec[l + 1]) /\ l' = l + 1
 Spec == Init /\ [][Next]_vars
 
